@@ -77,6 +77,9 @@ func (s *sim) drawConfig() {
 		if t.Permille("f.replay", 450) {
 			c.ReplayOld = true
 		}
+		if t.Permille("f.pcstarve", 300) {
+			c.DropPrecommitPm = []int{500, 300, 800}[t.Choose("pcstarve.rate", 3)]
+		}
 		if t.Permille("f.slow", 350) {
 			c.SlowPm = []int{10, 40, 150}[t.Choose("slowrate", 3)]
 		}
@@ -283,6 +286,14 @@ func (e engine) Run(rc *kit.RunCtx) {
 			if s.byz.active {
 				for _, i := range s.tape.Perm("byz.who", len(s.nodes))[:s.cfg.F] {
 					s.nodes[i].byz = true
+				}
+				if rc.Property == "C06" {
+					var etick func()
+					etick = func() {
+						s.byz.evidenceTick()
+						s.schedule(time.Duration(50+s.tape.Choose("ev.gap", 300))*time.Millisecond, "evidence", etick)
+					}
+					s.schedule(300*time.Millisecond, "evidence", etick)
 				}
 				if s.byz.storm {
 					var tick func()
